@@ -26,6 +26,7 @@ type inst struct {
 	Root, DAGs, Data, Flags, Logs string
 	Name, File                    string
 	Data_                         []byte // the document
+	Reloaded                      bool   // hot reload only: the reader's table entry was replaced
 }
 
 func (in *inst) store() persistence.DAGStore {
@@ -45,6 +46,7 @@ func (in *inst) api() *operations.BlackdaggerAPI {
 
 type entry struct {
 	Name string
+	Hot  bool // drives the daemon's directory watcher (hotreload.go)
 	// Loads: whether the entry parses the document at all (GetSpec only reads the bytes).
 	Fn func(in *inst) error
 }
@@ -52,60 +54,60 @@ type entry struct {
 func sp(s string) *string { return &s }
 
 var entries = []entry{
-	{"dag.LoadYAML", func(in *inst) error { _, err := dag.LoadYAML(in.Data_); return err }},
-	{"dag.LoadMetadata", func(in *inst) error { _, err := dag.LoadMetadata(in.File); return err }},
-	{"dag.LoadWithoutEval", func(in *inst) error { _, err := dag.LoadWithoutEval(in.File); return err }},
-	{"DAGStore.List", func(in *inst) error { _, _, err := in.store().List(); return err }},
-	{"DAGStore.ListPagination", func(in *inst) error {
+	{Name: "dag.LoadYAML", Fn: func(in *inst) error { _, err := dag.LoadYAML(in.Data_); return err }},
+	{Name: "dag.LoadMetadata", Fn: func(in *inst) error { _, err := dag.LoadMetadata(in.File); return err }},
+	{Name: "dag.LoadWithoutEval", Fn: func(in *inst) error { _, err := dag.LoadWithoutEval(in.File); return err }},
+	{Name: "DAGStore.List", Fn: func(in *inst) error { _, _, err := in.store().List(); return err }},
+	{Name: "DAGStore.ListPagination", Fn: func(in *inst) error {
 		_, err := in.store().ListPagination(persistence.DAGListPaginationArgs{Page: 1, Limit: 100})
 		return err
 	}},
-	{"DAGStore.TagList", func(in *inst) error { _, _, err := in.store().TagList(); return err }},
-	{"DAGStore.GetMetadata", func(in *inst) error { _, err := in.store().GetMetadata(in.Name); return err }},
-	{"DAGStore.GetDetails", func(in *inst) error { _, err := in.store().GetDetails(in.Name); return err }},
-	{"DAGStore.GetSpec", func(in *inst) error { _, err := in.store().GetSpec(in.Name); return err }},
-	{"DAGStore.UpdateSpec", func(in *inst) error { return in.store().UpdateSpec(in.Name, in.Data_) }},
-	{"DAGStore.Grep", func(in *inst) error { _, _, err := in.store().Grep("touch|VERIF|base"); return err }},
-	{"DAGStore.Find", func(in *inst) error { _, err := in.store().Find(in.Name); return err }},
-	{"scheduler.New(initDags)", func(in *inst) error {
+	{Name: "DAGStore.TagList", Fn: func(in *inst) error { _, _, err := in.store().TagList(); return err }},
+	{Name: "DAGStore.GetMetadata", Fn: func(in *inst) error { _, err := in.store().GetMetadata(in.Name); return err }},
+	{Name: "DAGStore.GetDetails", Fn: func(in *inst) error { _, err := in.store().GetDetails(in.Name); return err }},
+	{Name: "DAGStore.GetSpec", Fn: func(in *inst) error { _, err := in.store().GetSpec(in.Name); return err }},
+	{Name: "DAGStore.UpdateSpec", Fn: func(in *inst) error { return in.store().UpdateSpec(in.Name, in.Data_) }},
+	{Name: "DAGStore.Grep", Fn: func(in *inst) error { _, _, err := in.store().Grep("touch|VERIF|base"); return err }},
+	{Name: "DAGStore.Find", Fn: func(in *inst) error { _, err := in.store().Find(in.Name); return err }},
+	{Name: "scheduler.New(initDags)", Fn: func(in *inst) error {
 		s := scheduler.New(&config.Config{DAGs: in.DAGs, WorkDir: in.Root, Executable: "/bin/false", LogDir: in.Logs}, venv.Quiet, in.client())
 		if s == nil {
 			return fmt.Errorf("nil scheduler")
 		}
 		return nil
 	}},
-	{"client.GetStatus", func(in *inst) error { _, err := in.client().GetStatus(in.Name); return err }},
-	{"client.GetAllStatus", func(in *inst) error { _, _, err := in.client().GetAllStatus(); return err }},
-	{"client.GetAllStatusPagination", func(in *inst) error {
+	{Name: "client.GetStatus", Fn: func(in *inst) error { _, err := in.client().GetStatus(in.Name); return err }},
+	{Name: "client.GetAllStatus", Fn: func(in *inst) error { _, _, err := in.client().GetAllStatus(); return err }},
+	{Name: "client.GetAllStatusPagination", Fn: func(in *inst) error {
 		_, _, err := in.client().GetAllStatusPagination(dags.ListDagsParams{})
 		return err
 	}},
-	{"client.Grep", func(in *inst) error { _, _, err := in.client().Grep("touch|VERIF|base"); return err }},
-	{"client.GetDAGSpec", func(in *inst) error { _, err := in.client().GetDAGSpec(in.Name); return err }},
-	{"client.UpdateDAG", func(in *inst) error { return in.client().UpdateDAG(in.Name, string(in.Data_)) }},
-	{"client.GetTagList", func(in *inst) error { _, _, err := in.client().GetTagList(); return err }},
-	{"api.listDags", func(in *inst) error {
+	{Name: "client.Grep", Fn: func(in *inst) error { _, _, err := in.client().Grep("touch|VERIF|base"); return err }},
+	{Name: "client.GetDAGSpec", Fn: func(in *inst) error { _, err := in.client().GetDAGSpec(in.Name); return err }},
+	{Name: "client.UpdateDAG", Fn: func(in *inst) error { return in.client().UpdateDAG(in.Name, string(in.Data_)) }},
+	{Name: "client.GetTagList", Fn: func(in *inst) error { _, _, err := in.client().GetTagList(); return err }},
+	{Name: "api.listDags", Fn: func(in *inst) error {
 		if in.api().DagsListDagsHandler.Handle(dags.ListDagsParams{}) == nil {
 			return fmt.Errorf("nil responder")
 		}
 		return nil
 	}},
-	{"api.listDags(searchName)", func(in *inst) error {
+	{Name: "api.listDags(searchName)", Fn: func(in *inst) error {
 		if in.api().DagsListDagsHandler.Handle(dags.ListDagsParams{SearchName: sp(in.Name)}) == nil {
 			return fmt.Errorf("nil responder")
 		}
 		return nil
 	}},
-	{"api.getDagDetails(status)", func(in *inst) error { return detail(in, "status") }},
-	{"api.getDagDetails(spec)", func(in *inst) error { return detail(in, "spec") }},
-	{"api.getDagDetails(history)", func(in *inst) error { return detail(in, "history") }},
-	{"api.searchDags", func(in *inst) error {
+	{Name: "api.getDagDetails(status)", Fn: func(in *inst) error { return detail(in, "status") }},
+	{Name: "api.getDagDetails(spec)", Fn: func(in *inst) error { return detail(in, "spec") }},
+	{Name: "api.getDagDetails(history)", Fn: func(in *inst) error { return detail(in, "history") }},
+	{Name: "api.searchDags", Fn: func(in *inst) error {
 		if in.api().DagsSearchDagsHandler.Handle(dags.SearchDagsParams{Q: "touch|VERIF|base"}) == nil {
 			return fmt.Errorf("nil responder")
 		}
 		return nil
 	}},
-	{"api.listTags", func(in *inst) error {
+	{Name: "api.listTags", Fn: func(in *inst) error {
 		if in.api().DagsListTagsHandler.Handle(dags.ListTagsParams{}) == nil {
 			return fmt.Errorf("nil responder")
 		}
@@ -121,7 +123,7 @@ func detail(in *inst, tab string) error {
 }
 
 // control: the executing loader (start / dry-run / retry / restart use it).
-var controlEntry = entry{"dag.Load", func(in *inst) error { _, err := dag.Load("", in.File, ""); return err }}
+var controlEntry = entry{Name: "dag.Load", Fn: func(in *inst) error { _, err := dag.Load("", in.File, ""); return err }}
 
 func entryByName(n string) *entry {
 	if n == controlEntry.Name {
